@@ -61,6 +61,7 @@ def one_iteration(loop):
 # C38: IOLoopSched
 
 OFFSETS = [0.0, 500.0, 1700000000.0, 86400.0]
+SCALES = [0.5, 1.0, 1.0, 86400.5]       # seconds per tick: sub-second and more-than-a-day timedeltas too (item 1 / item 2 get the timedelta form in variants 0 / 3)
 CB_FORMS = ["add", "spawn"]
 TO_FORMS = ["abs", "delta", "later", "at"]
 
@@ -78,6 +79,7 @@ class SchedReal:
         # the specification does not depend on the offset; where the behaviour does not fix one
         # (off = 0) the replay variant picks it: none, small, epoch scale
         self.off = float(cfg.get("off", 0)) or OFFSETS[variant % len(OFFSETS)]
+        self.scale = SCALES[variant % len(SCALES)]
         loop = self.loop
         off = self.off
         self.io.time = lambda: loop.time() + off
@@ -94,7 +96,8 @@ class SchedReal:
 
     # -- time in ticks on the IOLoop's clock
     def ticks(self):
-        return int(round(self.io.time() - self.off - T0))
+        x = (self.io.time() - self.off - T0) / self.scale
+        return int(x) if x == int(x) else x
 
     def _note(self, i):
         self.ran.append([i, self.ticks(), self.iter if self.in_iter else -self.iter - 1])
@@ -165,6 +168,7 @@ class SchedReal:
         io = self.io
         if form == "x":
             form = TO_FORMS[(i + self.variant) % 4]
+        d = d * self.scale
         if form == "abs":
             return io.add_timeout(io.time() + d, f, i, tag=i)
         if form == "delta":
@@ -237,7 +241,7 @@ class SchedReal:
             elif act == "remove":
                 io.remove_timeout(self.handles[args[0]])
             elif act == "advance":
-                self.loop._vtime += args[0]
+                self.loop._vtime += args[0] * self.scale
             elif act == "iterate":
                 self.iter += 1
                 self.in_iter = True
@@ -626,3 +630,35 @@ def cross_thread_run(args):
         ev.append({"a": "end", "args": [], "obs": {"nran": nran[0]}})
     io.close()
     return {"id": tid, "cfg": {"nt": nt, "nk": nk}, "ev": ev, "gave_up": timed_out[0]}
+
+
+# ------------------------------------------------------------------------------------------
+# C39: TLAPS proof of the arithmetic lemmas
+
+def run_tlapm(module_path, scratch, timeout=900):
+    """Check a TLAPS module with tlapm in a scratch copy (tlapm writes its cache next to the
+    file).  Returns dict(ok, obligations, failed, wall_s, tail)."""
+    import os
+    import re
+    import shutil
+    import subprocess
+    import time
+    d = os.path.join(scratch, "tlaps")
+    os.makedirs(d, exist_ok=True)
+    dst = os.path.join(d, os.path.basename(module_path))
+    shutil.copy(module_path, dst)
+    t0 = time.time()
+    try:
+        p = subprocess.run(["tlapm", "--cleanfp", "--stretch", "8", os.path.basename(dst)], cwd=d, stdout=subprocess.PIPE,
+                           stderr=subprocess.STDOUT, text=True, timeout=timeout)
+        out = p.stdout
+    except FileNotFoundError:
+        return {"ok": False, "obligations": 0, "failed": None, "wall_s": 0, "tail": "tlapm not found"}
+    except subprocess.TimeoutExpired:
+        return {"ok": False, "obligations": 0, "failed": None, "wall_s": timeout, "tail": "tlapm timed out"}
+    finally:
+        shutil.rmtree(os.path.join(d, ".tlacache"), ignore_errors=True)
+    m = re.search(r"All (\d+) obligations? proved", out)
+    f = re.search(r"(\d+)/(\d+) obligations? failed", out)
+    return {"ok": bool(m) and p.returncode == 0, "obligations": int(m.group(1)) if m else (int(f.group(2)) if f else 0),
+            "failed": int(f.group(1)) if f else 0, "wall_s": round(time.time() - t0, 1), "tail": out[-600:]}
